@@ -63,9 +63,54 @@ def statefulOp (st : St) (op : String) (j : Json) : Except String (Option (St ×
       Json.arr #[.str n, .str e.module, .str e.fname]).toArray)]))
   | _ => pure none
 
+def optRat (j : Json) (k : String) : Except String (Option Rat) :=
+  match j.getObjVal? k with
+  | .ok .null => pure none
+  | .ok v => do pure (some (← jRat v))
+  | .error _ => pure none
+
+def optStr (j : Json) (k : String) : Except String (Option String) :=
+  match j.getObjVal? k with
+  | .ok (.str s) => pure (some s)
+  | _ => pure none
+
+def unitOf (s : String) : Except String TimeConv.TUnit :=
+  match s.toList with
+  | [c] => match TimeConv.TUnit.ofChar? c with
+    | some u => pure u
+    | none => throw "bad unit"
+  | _ => throw "bad unit"
+
+def opRound (j : Json) : Except String Json := do
+  let xs ← rats j "x"
+  let spec : Option Round.Spec ←
+    if (← bool j "has_spec") then
+      pure (some { base := ← optRat j "base", direction := ← optStr j "direction", off := ← optRat j "off" })
+    else pure none
+  let on ← bool j "rounding"
+  let hk ← bool j "has_key"
+  pure (out oRats (xs.mapM fun x => Round.applyRounding on hk spec x))
+
+def opTcCreate (j : Json) : Except String Json := do
+  let fs ← (← jArr (← field j "functions")).mapM fun f => match f with
+    | .arr #[.str n, .arr deps] => do pure (n, ← deps.toList.mapM jStr)
+    | _ => throw "bad function entry"
+  let ds := TimeConv.create fs (← strs j "data_cols")
+  pure (Json.mkObj [("ok", .arr (ds.map fun d =>
+    Json.arr #[.str d.name, .str d.src, .str d.u.toString, .str d.v.toString]).toArray)])
+
 def dispatch (j : Json) : Except String Json := do
   let op ← str j "op"
   match op with
+  | "round" => opRound j
+  | "conv" => do
+    let u ← unitOf (← str j "u"); let v ← unitOf (← str j "v")
+    pure (Json.mkObj [("ok", oRats ((← rats j "x").map (TimeConv.conv u v)))])
+  | "parse_name" =>
+    pure (Json.mkObj [("ok", .arr ((← strs j "names").map fun n => match TimeConv.parseName n with
+      | some p => Json.arr #[.str p.base, .str p.unit.toString, .str p.agg]
+      | none => Json.null).toArray)])
+  | "tc_create" => opTcCreate j
   | "date" => pure (dateInfo (← int j "ord"))
   | "grouped" => opGrouped j
   | "sum_by_p_id" => pure (out oRats (Agg.sumByPid (← rats j "col") (← ints j "ptr") (← ints j "p_id")))
